@@ -359,14 +359,26 @@ WRAPS = ["label", "subq", "cte", "union", "union_d", "scalar", "coerce", "cast"]
 TERMINALS = ["core", "core", "core_pair", "orm_exec", "compound_top", "ret_insert", "ret_insert_many", "ret_update", "orm_entity", "orm_cprop", "orm_deferred", "orm_aliased", "orm_refresh", "orm_scalars"]
 WRITES = ["single", "many", "multi", "orm_add", "update", "bindparam"]
 
-contexts = st.fixed_dictionaries(
-    {
-        "wraps": st.lists(st.sampled_from(WRAPS), max_size=3),
-        "term": st.sampled_from(TERMINALS),
-        "write": st.sampled_from(WRITES),
-        "split": st.integers(0, 4),
-    }
-)
+_TERM_GROUPS = [
+    ["core", "core_pair", "compound_top"],
+    ["ret_insert", "ret_insert_many", "ret_update"],
+    ["orm_entity", "orm_cprop", "orm_deferred", "orm_refresh"],
+    ["orm_exec", "orm_scalars", "orm_aliased"],
+]
+
+
+def contexts(castable=False):
+    wraps = WRAPS + (["cast", "cast"] if castable else [])
+    wraps = [w for w in wraps if castable or w != "cast"]
+    return st.fixed_dictionaries(
+        {
+            "wraps": st.lists(st.sampled_from(wraps), max_size=3),
+            "term": st.one_of([st.sampled_from(g) for g in _TERM_GROUPS[2:] + _TERM_GROUPS[:2]]),
+            "write": st.sampled_from(WRITES[1:] + WRITES[:1]),
+            "split": st.integers(0, 4),
+        }
+    )
+
 
 CASTABLE = {"int", "str", "binary", "uuid"}
 
@@ -574,7 +586,7 @@ def roundtrip_cases(draw):
     spec = draw(type_specs())
     vs = value_strategy(spec)
     values = draw(st.lists(st.one_of(vs, vs, vs, vs, st.none()), min_size=1, max_size=4))
-    return {"type": spec, "values": values, "ctx": draw(contexts)}
+    return {"type": spec, "values": values, "ctx": draw(contexts(_castable(spec)))}
 
 
 def check_roundtrip(case, ctx):
@@ -746,7 +758,7 @@ def once_cases(draw):
     kind = draw(st.sampled_from(ENV_KINDS))
     vs = env_value_strategy(kind)
     values = draw(st.lists(st.one_of(vs, vs, vs, vs, vs, st.none()), min_size=1, max_size=4))
-    return {"kind": kind, "values": values, "ctx": draw(contexts), "probe": draw(st.sampled_from(PROBES)), "variant": draw(st.sampled_from(["none", "none", "hit", "miss"]))}
+    return {"kind": kind, "values": values, "ctx": draw(contexts(kind in ("str", "int"))), "probe": draw(st.sampled_from(PROBES)), "variant": draw(st.sampled_from(["none", "none", "hit", "miss"]))}
 
 
 def check_once(case, ctx):
